@@ -14,8 +14,8 @@ SHARDS = {"quick": 8, "thorough": 16}
 RULE = (
     "handler configurations (0-4 handlers over Write / Change / Read, plain or coroutine functions, vetoing or not - also a "
     "coroutine that sets prevent_default, which must have no effect -, attached to one or both elements of a vector, declared on a "
-    "base or a derived driver class) x element kind (Text, Number, Switch, Light, BLOB) x vector enabled or not x 1 or 2 instances of "
-    "the class x op sequences (client newXXXVector through the Router, set_value(), direct assignment, reads; values from a "
+    "base or a derived driver class) x element kind (Text, Number, Switch, Light, BLOB) x vector enabled or not x 1 or 2 instances, each of "
+    "the derived or of the base class (the classes share the property definitions) x op sequences (client newXXXVector through the Router, set_value(), direct assignment, reads; values from a "
     "two-value domain so that changing and unchanged writes both occur). Handlers are closures appending (handler, instance, event "
     "type, element, payload, element value now, #publications now, in-task?) to a trace; a recording client counts publications. "
     "Oracle (trace vs analytic expectation): each Write handler of the element exactly once with the requested value, plain ones "
@@ -122,8 +122,11 @@ class Rig:
         Base = type("C14Base", (Driver,), dcts[0])
         Leaf = type("C14Leaf", (Base,), dcts[1])
         self.drivers = []
+        # "classes": which class each instance is made from (an instance of the base class carries only the handlers
+        # declared there; it shares the property definitions - and their handler tables - with the derived instances)
+        self.classes = [(case.get("classes") or ["leaf"])[i % len(case.get("classes") or ["leaf"])] for i in range(case.get("instances", 1))]
         for i in range(case.get("instances", 1)):
-            d = Leaf(name=f"DEV{i}", router=self.router)
+            d = (Leaf if self.classes[i] == "leaf" else Base)(name=f"DEV{i}", router=self.router)
             d._verif_index = i
             self.drivers.append(d)
         self.main_task = None
@@ -146,9 +149,11 @@ class Rig:
         self.loop.shutdown()
 
 
-def handlers_for(case, ev, e, coro=None):
+def handlers_for(case, ev, e, coro=None, cls="leaf"):
     out = []
     for hid, h in enumerate(case["handlers"]):
+        if cls == "base" and h.get("level", 0) % 2 == 1:
+            continue  # declared on the derived class only
         if h["ev"] == ev and (e % 2) in {i % 2 for i in h["on"]} and (coro is None or h["coro"] == coro):
             out.append(hid)
     return out
@@ -166,6 +171,7 @@ def check_contract(case):
         saw_change = saw_same = False
         for op in case["ops"]:
             inst = op["inst"] % ninst
+            cls = rig.classes[inst]
             e = op["e"] % 2
             el = rig.element(inst, e)
             t = op["op"]
@@ -222,8 +228,8 @@ def check_contract(case):
                 if (e % 2) not in {i % 2 for i in case["handlers"][en["h"]]["on"]}:
                     raise Failure(f"handler-not-subscribed:{en['ev']}", f"{where}: {en}")
             if t == "read":
-                refreshers = [h for h in handlers_for(case, "Read", e, coro=False) if case["handlers"][h].get("refresh")]
-                plain_read = handlers_for(case, "Read", e, coro=False)
+                refreshers = [h for h in handlers_for(case, "Read", e, coro=False, cls=cls) if case["handlers"][h].get("refresh")]
+                plain_read = handlers_for(case, "Read", e, coro=False, cls=cls)
                 got = [en["h"] for en in sync_trace if en["ev"] == "Read" and en["el"] == f"E{e}"]
                 for h in plain_read:
                     if h not in got:
@@ -237,9 +243,9 @@ def check_contract(case):
                     raise Failure("read-publishes", where)
                 continue
             # -- Write ---------------------------------------------------------------------
-            has_refresh = any(h["ev"] == "Read" and h.get("refresh") and not h["coro"] for h in case["handlers"])
-            plain_w = handlers_for(case, "Write", e, coro=False) if t in ("client", "set_value") else []
-            coro_w = handlers_for(case, "Write", e, coro=True) if t in ("client", "set_value") else []
+            has_refresh = any(h["ev"] == "Read" and h.get("refresh") and not h["coro"] and (cls == "leaf" or h.get("level", 0) % 2 == 0) for h in case["handlers"])
+            plain_w = handlers_for(case, "Write", e, coro=False, cls=cls) if t in ("client", "set_value") else []
+            coro_w = handlers_for(case, "Write", e, coro=True, cls=cls) if t in ("client", "set_value") else []
             got_pw = [en for en in sync_trace if en["ev"] == "Write"]
             if sorted(en["h"] for en in got_pw) != sorted(plain_w):
                 raise Failure(f"write-handlers:{'missing' if len(got_pw) < len(plain_w) else 'extra'}:plain:{t}", f"{where}: ran {[en['h'] for en in got_pw]}, expected {plain_w}")
@@ -272,7 +278,7 @@ def check_contract(case):
             exclusive = kind == "Switch" and case.get("rule", "AnyOfMany") != "AnyOfMany"
             if pubs and not vetoed:
                 for j in (0, 1):
-                    plain_r = handlers_for(case, "Read", j, coro=False)
+                    plain_r = handlers_for(case, "Read", j, coro=False, cls=cls)
                     ran = [en["h"] for en in sync_trace if en["ev"] == "Read" and en["el"] == f"E{j}" and en["published_now"] == pub_before]
                     for h in plain_r:
                         if h not in ran:
@@ -324,7 +330,7 @@ def check_contract(case):
                 if not ok:
                     raise Failure("publication-carries-other-value", f"{where}: {child[0].value!r} vs {new!r}")
             changed = norm(kind, old) != norm(kind, new)
-            want_changes = sorted(handlers_for(case, "Change", e))
+            want_changes = sorted(handlers_for(case, "Change", e, cls=cls))
             got_changes = sorted(en["h"] for en in changes)
             if kind == "BLOB" and not changed:
                 if got_changes not in ([], want_changes):
@@ -341,7 +347,7 @@ def check_contract(case):
                     raise Failure("change-handler-task-discipline", f"{where}: {en}")
             saw_change = saw_change or changed
             saw_same = saw_same or not changed
-        labels = [kind, f"instances={ninst}", "enabled" if case.get("enabled", True) else "disabled"]
+        labels = [kind, f"instances={ninst}", "classes=" + "+".join(rig.classes), "enabled" if case.get("enabled", True) else "disabled"]
         if kind == "Switch":
             labels.append("rule-" + case.get("rule", "AnyOfMany"))
         if any(h.get("veto") and not h["coro"] for h in case["handlers"]):
@@ -377,6 +383,7 @@ def case_st(instances):
             "rule": st.sampled_from(["AnyOfMany", "OneOfMany", "AtMostOne", "OneOfMany"]),
             "enabled": st.sampled_from([True, True, False]),
             "instances": instances,
+            "classes": st.sampled_from([["leaf"], ["leaf"], ["base", "leaf"], ["leaf", "base"], ["base"]]),
             "handlers": st.lists(handler_st, min_size=0, max_size=4),
             "ops": st.lists(op_st, min_size=1, max_size=8),
         }
